@@ -360,17 +360,23 @@ def enforce(A: spmatrix,
     overwrite
         Optionally, the original system is both modified (for performance) and
         returned (for compatibility with :func:`skfem.utils.solve`).  By
-        default, ``False``.
+        default, ``False``.  A matrix which is not in the CSR format is
+        always converted and left unmodified.
 
     Returns
     -------
     LinearSystem
         A linear system with the enforced rows/diagonals set to zero/one.
+        The matrix is in the CSR format.
 
     """
     b, x, I, D = _init_bc(A, b, x, I, D)
 
-    Aout = A if overwrite else A.copy()
+    # the rows are zeroed through the CSR data structure
+    if overwrite and A.format == 'csr':
+        Aout = A
+    else:
+        Aout = A.tocsr(copy=True)
 
     # set rows on lhs to zero
     start = Aout.indptr[D]
